@@ -18,7 +18,7 @@ import json
 from automata.fa.dfa import DFA
 
 from harness import gen, langoracle
-from harness.common import Ctx, Names, Toks, call, enc_dfa, toks
+from harness.common import guarded, Ctx, Names, Toks, call, enc_dfa, toks
 from harness.dfaops_common import (check_valid, lang_mismatch, parse_canon, py_canon, render_block)
 from harness.ops.C04 import reachable_count
 
@@ -92,6 +92,7 @@ def check_min_props(ctx: Ctx, what: str, src_machines, spec, R: DFA, replay: dic
     return True
 
 
+@guarded
 def do_minify(ctx: Ctx, A: DFA, retain: bool, origin: str):
     drv = ctx.driver("drv_dfa_ops")
     encA, stA, sy = enc_dfa(A)
@@ -139,6 +140,7 @@ def _reach(d: DFA):
     return seen
 
 
+@guarded
 def do_minify_via_op(ctx: Ctx, A: DFA, B: DFA, origin: str):
     """minify=True paths of other operations: minimality of their results."""
     from harness.ops.C04 import OPS
